@@ -22,8 +22,14 @@ type exprCase struct {
 		E   any    `json:"e"`
 	} `json:"ex"`
 	// scope cases (C06)
-	Params map[string]string `json:"params,omitempty"`
-	Sc     any               `json:"sc,omitempty"`
+	Sc struct {
+		Params []struct {
+			N string `json:"n"`
+			S string `json:"s"`
+		} `json:"params"`
+		Lets []any `json:"lets"`
+	} `json:"sc"`
+	Alt []gTok `json:"alt"`
 }
 
 func sqlTokensJSON(toks []sTok) []map[string]string {
@@ -82,6 +88,20 @@ func cmdExprReplay(a args) {
 			}
 			res.Cases++
 			res.Nontrivial++
+			var params map[string]string
+			scParams := []any{}
+			for _, pr := range c.Sc.Params {
+				if params == nil {
+					params = map[string]string{}
+				}
+				params[pr.N] = pr.S
+				scParams = append(scParams, map[string]any{"n": pr.N, "toks": sqlTokensJSON(lexSQL(pr.S, "std"))})
+			}
+			lets := c.Sc.Lets
+			if lets == nil {
+				lets = []any{}
+			}
+			sc := map[string]any{"params": scParams, "lets": lets}
 			var firstSQL string
 			for layout := 0; layout < layouts; layout++ {
 				lay := layout
@@ -97,15 +117,15 @@ func cmdExprReplay(a args) {
 				var sql string
 				var cerr error
 				var opts *pql.CompileOptions
-				if c.Params != nil {
-					opts = &pql.CompileOptions{Parameters: c.Params}
+				if params != nil {
+					opts = &pql.CompileOptions{Parameters: params}
 				}
 				if p, st := guarded(text, "Compile", func() { sql, cerr = opts.Compile(text) }); p != nil {
 					res.violate(Violation{Property: prop, Kind: "panic", InputB64: b64(text),
 						Reason: fmt.Sprintf("Compile panicked: %v", p), Extra: map[string]any{"stack": st[:min(len(st), 1200)]}})
 					continue
 				}
-				extra := map[string]any{"family": c.Fam, "choice": c.Ch, "pos": c.Ex.Pos, "params": c.Params}
+				extra := map[string]any{"family": c.Fam, "choice": c.Ch, "pos": c.Ex.Pos, "params": params}
 				if cerr != nil {
 					if c.XC == "ok" {
 						res.violate(Violation{Property: prop, Kind: "valid_expression_not_compiled", InputB64: b64(text), Extra: extra,
@@ -131,9 +151,19 @@ func cmdExprReplay(a args) {
 					continue // same SQL as layout 0: one trace record is enough
 				}
 				id++
-				rec := map[string]any{"id": id, "pos": c.Ex.Pos, "e": withPrintFlags(c.Ex.E), "sql": sqlTokensJSON(stoks)}
-				if c.Sc != nil {
-					rec["sc"] = c.Sc
+				rec := map[string]any{"id": id, "pos": c.Ex.Pos, "e": withPrintFlags(c.Ex.E), "sql": sqlTokensJSON(stoks), "sc": sc}
+				if layout == 0 && len(c.Alt) > 0 {
+					// bindings that are unused or written after the query do not change the output
+					altText, _ := renderTokens(c.Alt, 0, nil)
+					var altSQL string
+					var altErr error
+					guarded(altText, "Compile", func() { altSQL, altErr = opts.Compile(altText) })
+					res.Checks["irrelevant_bindings"]++
+					if altErr != nil || altSQL != sql {
+						res.violate(Violation{Property: prop, Kind: "irrelevant_binding_changes_output", InputB64: b64(text), Extra: extra,
+							Observed: sql, Expected: map[string]any{"without_them": altText, "sql": altSQL, "err": fmt.Sprint(altErr)},
+							Reason: "a let that is unused or written after the query changes the output"})
+					}
 				}
 				te.Encode(rec)
 				se.Encode(map[string]any{"id": id, "b64": b64(text), "sql": sql, "extra": extra})
